@@ -37,7 +37,7 @@ ASSUMPTIONS = [
     "mako-render passes every --var as a string: only string-context programs take that path",
     "programs whose reference output is unknown are compared differentially only",
 ]
-BOUNDS = {"quick": {"module_state": "a template mutating its <%! %> state: 8 x 8 ordered pairs of construction routes in one process, each Template object rendered 2-3 times", "seeds": [0, 1, 2, 3], "per_corpus_limit": 120}, "thorough": {"seeds": [0, 1, 2, 3, 4, 5, 6, 7], "per_corpus_limit": 1500}}
+BOUNDS = {"quick": {"foreign_module_files": "every corpus item once more in a third process after each of its module files was given a magic number one larger / one smaller than the library's (alternating) and a body that prints a marker", "module_state": "a template mutating its <%! %> state: 8 x 8 ordered pairs of construction routes in one process, each Template object rendered 2-3 times", "seeds": [0, 1, 2, 3], "per_corpus_limit": 120}, "thorough": {"seeds": [0, 1, 2, 3, 4, 5, 6, 7], "per_corpus_limit": 1500}}
 READY = True
 
 E = "\u00e9\u4e2d\U0001d11e"
@@ -219,6 +219,10 @@ def run_job(job):
     later = _child({"items": items, "workroot": base, "paths": ["moddir2"]}, 0)
     for k, v in later.items():
         results[k]["later"] = v
+    # a third process finds module files of another generation of the library (foreign magic numbers)
+    later = _child({"items": items, "workroot": base, "paths": ["moddir3"]}, 0)
+    for k, v in later.items():
+        results[k]["later"].update(v)
     for s in BOUNDS[tier]["seeds"][1:]:
         r = _child({"items": items, "workroot": os.path.join(root, "s%d" % s), "paths": ["string", "file", "moddir"]}, s)
         for k, v in r.items():
@@ -262,6 +266,10 @@ def judge(it, res, st):
             obs.append((p, r0[p]))
     if "later" in res and "moddir2" in res["later"]:
         obs.append(("later-process", res["later"]["moddir2"]))
+    if "later" in res and "moddir3" in res["later"]:
+        obs.append(("later-process-foreign-magic-number", res["later"]["moddir3"]))
+        if res["later"]["moddir3"].get("rewritten"):
+            st.extra["items_with_foreign_module_files"] = st.extra.get("items_with_foreign_module_files", 0) + 1
     for s, r in res.items():
         if s in ("0", "later"):
             continue
@@ -535,6 +543,7 @@ def replay(case):
     root = core.scratch_dir("c08r-")
     res = {"0": c08_lib.run_item(it, os.path.join(root, "s0", "x"), IN_PROCESS + (["cmd"] if cmd_ok(it) else []))}
     res["later"] = _child({"items": [dict(it, id="x")], "workroot": os.path.join(root, "s0"), "paths": ["moddir2"]}, 0)["x"]
+    res["later"].update(_child({"items": [dict(it, id="x")], "workroot": os.path.join(root, "s0"), "paths": ["moddir3"]}, 0)["x"])
     for s in (1, 2, 3):
         res[str(s)] = _child({"items": [dict(it, id="x")], "workroot": os.path.join(root, "s%d" % s), "paths": ["string", "file", "moddir"]}, s)["x"]
     judge(it, res, st)
